@@ -301,6 +301,28 @@ def s6(prog: Program, chk: Check) -> None:
     e2(prog, chk, rule="S6")
 
 
+def s7(prog: Program, chk: Check) -> None:
+    chk.rule("S7", "both methods get their system propagators from System.get_propagators with "
+             "their own (dt, start_time, tolerances): no memo in the system classes (dict, lazily "
+             "set attribute, closure container - also one kept on self by the closure that "
+             "get_propagators hands out) leaves out of its key anything the stored propagators "
+             "were computed from; Tempo keeps its closure from construction to compute(), so a "
+             "memo shared between closures would serve it another grid's propagators", floor=1)
+    from rules.c20 import memo_findings
+    units = [u for u in prog.units_in("system") if not isinstance(u.node, ast.Lambda)]
+    n = 0
+    for (u, node, construct, missing) in memo_findings(prog, units):
+        n += 1
+        chk.saw(u)
+        chk.add("S7", u, construct, not missing,
+                "identified by everything it depends on" if not missing else
+                f"the stored value depends on {missing}, which is not part of the key: a "
+                f"propagator closure made earlier (Tempo keeps one) is served values computed "
+                f"for another time grid", node)
+    chk.add("S7", prog.module("system"), f"{len(units)} functions of system.py scanned, {n} memo "
+            f"idiom(s)", len(units) >= 40, "" if len(units) >= 40 else "the module shrank")
+
+
 def run(prog: Program, chk: Check) -> None:
     chk.explanation = (
         "Decides that TEMPO and PT-TEMPO + compute_dynamics are wired to the same inputs at the "
@@ -317,3 +339,4 @@ def run(prog: Program, chk: Check) -> None:
     chk.call(s4, prog, chk)
     chk.call(s5, prog, chk)
     chk.call(s6, prog, chk)
+    chk.call(s7, prog, chk)
